@@ -193,6 +193,9 @@ def graph_workload(ctx, case, rng, multi_sub_p=0.15, safe_regex=True, cfg_pool=N
   if fanout_p and rng.random() < fanout_p:
     spec, fan = models.t_fanout(rng)
   else:
+    if getattr(ctx, 'tier', 'quick') == 'thorough' and 'n_ops' not in model_kw and rng.random() < 0.3:
+      model_kw = dict(model_kw, n_ops=int(rng.integers(9, 21)))   # deeper graphs in the thorough tier
+      ctx.count('deep_graphs')
     spec = models.model_for_case(rng, multi_sub_p=multi_sub_p, **model_kw)
   mix = data_mix or DATA_MIX
   cls = mix[int(rng.integers(len(mix)))]
